@@ -21,7 +21,7 @@ import sys, os, json
 sys.path.insert(0, os.path.dirname(__file__))
 from tr_cint import TranslateError, clang_dump
 
-TU = '#define NDEBUG 1\n#define MP_DATE 20240320\n#include "mp/valcvt.h"\n#include "mp/flat/redef/std/range_con.h"\n'
+TU = '#define NDEBUG 1\n#define MP_DATE 20240320\n#include "mp/valcvt.h"\n#include "mp/flat/redef/std/range_con.h"\n#include "mp/backend-std.h"\n'
 
 SKIP_CASTS = {'LValueToRValue', 'NoOp', 'IntegralCast', 'FunctionToPointerDecay', 'Dependent', 'IntegralToFloating', 'FloatingCast'}
 
@@ -130,7 +130,26 @@ class Gen:
         if k in ('ImplicitCastExpr',) and n.get('castKind') in ('IntegralToBoolean', 'FloatingToBoolean'):
             return '(%s ≠ 0)' % self.ex(n['inner'][0], env)
         if k == 'IntegerLiteral':
-            return n['value']
+            return '((%s : Int) ≠ 0)' % n['value'] if boolctx else n['value']
+        if k == 'FloatingLiteral':
+            v = float(n['value'])
+            if v != int(v):
+                raise TranslateError('non-integral floating literal')
+            return str(int(v))
+        if k in ('CallExpr', 'CXXMemberCallExpr'):
+            callee = strip(n['inner'][0])
+            nm = callee.get('name') or callee.get('member')
+            args = n['inner'][1:]
+            if nm in getattr(self, 'callmap', {}) and not args:
+                e = self.callmap[nm]
+                if nm in getattr(self, 'boolcalls', ()):
+                    return e
+                return '(%s ≠ 0)' % e if boolctx else e
+            if nm == 'round' and len(args) == 1 and callee.get('kind') == 'UnresolvedLookupExpr':
+                return '(roundHalfAway %s)' % self.ex(args[0], env)
+            if nm == 'fabs' and len(args) == 1:
+                return '(absVal %s)' % self.ex(args[0], env)
+            raise TranslateError('unsupported call of %s' % nm)
         if k == 'DeclRefExpr':
             r = n['referencedDecl']
             if r['kind'] == 'EnumConstantDecl':
@@ -139,9 +158,18 @@ class Gen:
                 return str(self.enums[r['name']])
             if r['name'] in env:
                 e = env[r['name']]
+                if r['name'] in getattr(self, 'boolvars', ()):
+                    return e
                 return '(%s ≠ 0)' % e if boolctx else e
             raise TranslateError('unknown variable ' + r['name'])
         if k in ('ArraySubscriptExpr', 'CXXOperatorCallExpr'):
+            allnames = [x['referencedDecl']['name'] for x in find(n, lambda m: m.get('kind') == 'DeclRefExpr')]
+            key = '%s[%s]' % tuple(allnames) if len(allnames) == 2 else None
+            if key in env and key != 'vec[i]':
+                e = env[key]
+                if key in getattr(self, 'boolvars', ()):
+                    return e
+                return '(%s ≠ 0)' % e if boolctx else e
             names = [x['referencedDecl']['name'] for x in find(n, lambda m: m.get('kind') == 'DeclRefExpr' and m.get('referencedDecl', {}).get('kind') == 'ParmVarDecl')]
             if names == ['vec', 'i'] and 'vec[i]' in env:
                 e = env['vec[i]']
@@ -154,6 +182,11 @@ class Gen:
             a, b = n['inner']
             if op in ('&&', '||'):
                 return '(%s %s %s)' % (self.ex(a, env, True), '∧' if op == '&&' else '∨', self.ex(b, env, True))
+            if op == '&':
+                m = strip(b)
+                if m.get('kind') != 'IntegerLiteral' or int(m['value']) not in (1, 2, 4, 8):
+                    raise TranslateError('bit test with a mask that is not a single-bit literal')
+                return '((%s / %s) %% 2 ≠ 0)' % (self.ex(a, env), m['value'])     # single-bit test on a non-negative int
             x, y = self.ex(a, env), self.ex(b, env)
             if op == '>':
                 return '(%s < %s)' % (y, x)
@@ -228,6 +261,9 @@ class Gen:
         if lhs['kind'] == 'MemberExpr':
             return lhs['name']
         if lhs['kind'] in ('ArraySubscriptExpr', 'CXXOperatorCallExpr'):
+            allnames = [x['referencedDecl']['name'] for x in find(lhs, lambda m: m.get('kind') == 'DeclRefExpr')]
+            if len(allnames) == 2 and allnames != ['vec', 'i']:
+                return '%s[%s]' % tuple(allnames)
             return 'vec[i]'
         raise TranslateError('assignment to ' + lhs['kind'])
 
@@ -297,6 +333,78 @@ class Gen:
                 raise TranslateError('ValueNode::%s does not Assign a range' % name)
             res[name] = (params, rng['b'], rng['e'], env['sz_'])
         return res
+
+    # ---- StdBackend::DoRound / RoundSolution (mip:round)
+    def do_round(self):
+        docs = self.dump('mp::StdBackend')
+
+        def method(name):
+            ms = [m for d in docs for m in find(d, lambda n: n.get('kind') == 'CXXMethodDecl' and n.get('name') == name and any(c.get('kind') == 'CompoundStmt' for c in n.get('inner', [])))]
+            if len(ms) != 1:
+                raise TranslateError('StdBackend::%s: %d definitions' % (name, len(ms)))
+            return ms[0]
+        self.callmap = {'round': 'r', 'IsMIP': 'isMIP = true'}
+        self.boolcalls = ('IsMIP',)
+        self.boolvars = ('fAssign', 'fInt[j]')
+        out = {}
+        body = self.body(method('DoRound'))['inner']
+        decls = {s['inner'][0]['name']: s['inner'][0] for s in body if s['kind'] == 'DeclStmt'}
+        if 'fAssign' not in decls:
+            raise TranslateError('DoRound: no fAssign')
+        out['assign'] = self.ex(decls['fAssign']['inner'][0], {}, True)
+        loops = [s for s in body if s['kind'] == 'ForStmt']
+        if len(loops) != 1:
+            raise TranslateError('DoRound: expected one loop')
+        init = loops[0]['inner'][0]['inner'][0]['inner'][0]
+        bound_names = [x['referencedDecl']['name'] for x in find(init, lambda m: m.get('kind') == 'DeclRefExpr')]
+        callee = find(init, lambda m: m.get('kind') == 'UnresolvedLookupExpr')
+        out['bound'] = '%s(%s)' % (callee[0]['name'] if callee else '?', ','.join(n + '.size' for n in bound_names))
+
+        def decl(s_, env):
+            vd = s_['inner'][0]
+            env = dict(env)
+            env[vd['name']] = self.ex(vd['inner'][0], env)
+            return env
+
+        def incr(s_, env):
+            if s_.get('opcode') != '++':
+                raise TranslateError('DoRound: unary ' + str(s_.get('opcode')))
+            env = dict(env)
+            nm = strip(s_['inner'][0])['referencedDecl']['name']
+            env[nm] = '(%s + 1)' % env[nm]
+            return env
+        env0 = {'fInt[j]': 'isInt = true', 'sol[j]': 'x', 'fAssign': 'fAssign = true', 'nround': 'nround', 'maxmodif': 'mm'}
+        env = self.exec([loops[0]['inner'][-1]], env0, {'stmt': {'DeclStmt': decl, 'UnaryOperator': incr}})
+        out['elem'] = env['sol[j]']
+        out['count'] = env['nround']
+        # message
+        mbody = method('ModifySolveCodeAndMessageAfterRounding')
+        ifs = [s for s in self.body(mbody)['inner'] if s['kind'] == 'IfStmt']
+        msg_if = [s for s in ifs if find(s, lambda m: m.get('kind') == 'StringLiteral' and 'rounded to integer' in m.get('value', ''))]
+        if len(msg_if) != 1:
+            raise TranslateError('the message branch of ModifySolveCodeAndMessageAfterRounding was not found')
+        out['msg'] = self.ex(msg_if[0]['inner'][0], {}, True)
+        conds = [c for c in find(msg_if[0], lambda m: m.get('kind') == 'ConditionalOperator')
+                 if [x.get('value') for x in find(c, lambda m: m.get('kind') == 'StringLiteral')] == ['""', '"would be "']]
+        if len(conds) != 1:
+            raise TranslateError('the `? "" : "would be "` selector was not found')
+        out['really'] = self.ex(conds[0]['inner'][0], {}, True)
+        # call guard
+        rep = method('ReportSolution2AMPL')
+        outer = [s for s in self.body(rep)['inner'] if s['kind'] == 'IfStmt' and find(s, lambda m: m.get('kind') == 'MemberExpr' and m.get('name') == 'RoundSolution')]
+        if len(outer) != 1:
+            raise TranslateError('ReportSolution2AMPL: call of RoundSolution not found in exactly one top-level if')
+        oc = find(outer[0]['inner'][0], lambda m: m.get('kind') == 'MemberExpr')
+        out['outer'] = oc[0]['name'] if oc else '?'
+        inner = [s for s in find(outer[0]['inner'][1], lambda m: m.get('kind') == 'IfStmt')
+                 if find(s['inner'][1], lambda m: m.get('kind') == 'MemberExpr' and m.get('name') == 'RoundSolution') and not find(s['inner'][1], lambda m: m.get('kind') == 'IfStmt')]
+        if len(inner) != 1:
+            raise TranslateError('ReportSolution2AMPL: guard of RoundSolution')
+        out['guard'] = self.ex(inner[0]['inner'][0], {}, True)
+        args = [(x.get('name') or x.get('member')) for x in find(inner[0]['inner'][1], lambda m: (m.get('name') or m.get('member')) in ('primal', 'dual', 'objvals'))]
+        out['arg'] = args[0] if args else '?'
+        self.callmap, self.boolcalls, self.boolvars = {}, (), ()
+        return out
 
     # ---- RangeCon2Slack
     POS = {'CON_SRC': '.src', 'CON_TARGET': '.target', 'VAR_SLK': '.slk'}
@@ -600,6 +708,20 @@ def main(repo, out, work):
     L.append('def iisCases : List (Int × Int) := [%s]' % ', '.join('(%d, %d)' % c for c in cases))
     L.append('/-- `PostsolveIISEntry`: tested cell, written cell, cell read when the tested value is 0 -/')
     L.append('def postsolveIISEntry : R2SIIS := ⟨%s, %s, %s⟩\n' % (test, dst, els))
+    dr = g.do_round()
+    L.append('/-- `StdBackend::DoRound`: `fAssign` (does option `mip:round` = r ask for the values to be changed?) -/')
+    L.append('def doRoundAssign (r : Int) : Prop := %s' % dr['assign'])
+    L.append('/-- `DoRound`, one pass of the loop body: the new `sol[j]` -/')
+    L.append('def doRoundElem (fAssign isInt : Bool) (x : Val) : Val := %s' % dr['elem'])
+    L.append('/-- … and the new `nround` -/')
+    L.append('def doRoundCount (isInt : Bool) (x : Val) (nround : Int) : Int := %s' % dr['count'].replace('(absVal', '(absVal'))
+    L.append('def doRoundBound : String := %s' % lstr(dr['bound']))
+    L.append('/-- `ModifySolveCodeAndMessageAfterRounding`: is the message extended; does it say "rounded" (not "would be rounded") -/')
+    L.append('def roundMsgFlag (r : Int) : Prop := %s' % dr['msg'])
+    L.append('def roundMsgReally (r : Int) : Prop := %s' % dr['really'])
+    L.append('/-- `ReportSolution2AMPL`: `if (%s()) { … if (<guard>) RoundSolution(sol.%s, writer); }` -/' % (dr['outer'], dr['arg']))
+    L.append('def roundGuard (r : Int) (isMIP : Bool) : Prop := %s' % dr['guard'])
+    L.append('def roundCallSite : String × String := (%s, %s)\n' % (lstr(dr['outer']), lstr(dr['arg'])))
     kinds, classes, uses, helpers, rw, skel = g.structure()
     L.append('/-- `LIST_PRESOLVE_METHODS` (pure virtual `Presolve*` of `BasicLink`) -/')
     L.append('def presolveKinds : List String := [%s]' % ', '.join(lstr(k) for k in kinds))
